@@ -81,11 +81,40 @@ theorem sorted_of_keys_eq {α β} {l : List (Bytes × α)} {l' : List (Bytes × 
   rw [← h, List.pairwise_map] at a
   exact a
 
+/-! ### live assets -/
+
+theorem live_native (w : World) (d : Nat) : Live w (.native d) = ((w.denoms d).isSome = true) := rfl
+theorem live_token (w : World) (t : Nat) : Live w (.token t) = ((w.tok t).isSome = true) := rfl
+
+/-- the factory's decimals query succeeds exactly on live assets -/
+theorem live_iff_decimals {w : World} {a : Asset} : Live w a ↔ ∃ d, assetDecimals w a = .ok d := by
+  cases a with
+  | native d =>
+    simp only [live_native, assetDecimals]
+    cases w.denoms d <;> simp
+  | token t =>
+    simp only [live_token, assetDecimals]
+    cases w.tok t <;> simp
+
+theorem live_of_decimals {w : World} {a : Asset} {d : Nat} (h : assetDecimals w a = .ok d) : Live w a :=
+  live_iff_decimals.mpr ⟨d, h⟩
+
+/-- the same denoms are registered and the same cw20 contracts exist: the same assets are live -/
+theorem live_congr {w w' : World} (hd : w'.denoms = w.denoms) (ht : SameToks w w') (a : Asset) :
+    Live w' a ↔ Live w a := by
+  cases a with
+  | native d => simp only [live_native, hd]
+  | token t => simp only [live_token, ht t]
+
+theorem live_same {w w' : World} (hs : Same w w') (ht : SameToks w w') (a : Asset) : Live w' a ↔ Live w a :=
+  live_congr hs.denoms ht a
+
 /-! ### transfer of the invariant -/
 
 theorem regOK_transfer {w w' : World} (hreg : w'.registry = w.registry) (hraw : w'.rawId = w.rawId)
     (hfac : w'.facAddr = w.facAddr) (hden : w'.denoms = w.denoms)
-    (hpair : ∀ e ∈ w.registry, w'.pair e.2.pair = w.pair e.2.pair) (hr : RegOK w) : RegOK w' where
+    (hpair : ∀ e ∈ w.registry, w'.pair e.2.pair = w.pair e.2.pair)
+    (hlive : ∀ a, Live w a → Live w' a) (hr : RegOK w) : RegOK w' where
   sorted := by rw [hreg]; exact hr.sorted
   keyed := by intro e he; rw [hreg] at he; rw [hraw]; exact hr.keyed e he
   matched := by
@@ -95,12 +124,20 @@ theorem regOK_transfer {w w' : World} (hreg : w'.registry = w.registry) (hraw : 
   distinctPairs := by rw [hreg]; exact hr.distinctPairs
   distinctAssets := by intro e he; rw [hreg] at he; exact hr.distinctAssets e he
   denomsKnown := by intro e he; rw [hreg] at he; rw [hden]; exact hr.denomsKnown e he
+  live := by
+    intro e he; rw [hreg] at he
+    exact ⟨hlive _ (hr.live e he).1, hlive _ (hr.live e he).2⟩
 
-theorem regOK_same {w w' : World} (hs : Same w w') (hr : RegOK w) : RegOK w' :=
-  regOK_transfer hs.registry hs.rawId hs.facAddr hs.denoms (fun _ _ => by rw [hs.pair]) hr
+/-- ledger operations (contract states unchanged, the same cw20 contracts exist) keep the invariant -/
+theorem regOK_same {w w' : World} (hs : Same w w') (ht : SameToks w w') (hr : RegOK w) : RegOK w' :=
+  regOK_transfer hs.registry hs.rawId hs.facAddr hs.denoms (fun _ _ => by rw [hs.pair])
+    (fun a h => (live_same hs ht a).mpr h) hr
 
-theorem rawOK_of_eq {w w' : World} (h : w'.rawId = w.rawId) (hr : RawOK w) : RawOK w' :=
-  ⟨by rw [h]; exact hr.inj, by rw [h]; exact hr.short⟩
+/-- `RawOK` depends on the raw identifiers and on which assets are live: it carries over to a world with the same
+identifiers in which no further asset is live -/
+theorem rawOK_of_eq {w w' : World} (h : w'.rawId = w.rawId) (hl : ∀ a, Live w' a → Live w a) (hr : RawOK w) :
+    RawOK w' :=
+  ⟨by rw [h]; exact fun a b ha hb => hr.inj a b (hl a ha) (hl b hb), by rw [h]; exact hr.short⟩
 
 /-! ### the empty registry -/
 
@@ -111,6 +148,7 @@ theorem regOK_init {w : World} (h : w.registry = []) : RegOK w where
   distinctPairs := by rw [h]; exact List.Pairwise.nil
   distinctAssets := by intro e he; rw [h] at he; cases he
   denomsKnown := by intro e he; rw [h] at he; cases he
+  live := by intro e he; rw [h] at he; cases he
 
 /-! ### lookups -/
 
@@ -125,22 +163,66 @@ theorem lookup_both_orders {w : World} (hr : RegOK w) {e : Bytes × Record} (he 
   rw [pairKey_comm]
   exact h1
 
-theorem lookup_sound {w : World} (hr : RegOK w) (hraw : RawOK w) {a b : Asset} {R : Record}
-    (h : facLookup w a b = some R) : (R.a0 = a ∧ R.a1 = b) ∨ (R.a0 = b ∧ R.a1 = a) := by
+/-- a lookup depends on the queried assets through their raw identifiers only -/
+theorem lookup_by_raw {w : World} {a b a' b' : Asset} (ha : w.rawId a = w.rawId a') (hb : w.rawId b = w.rawId b') :
+    facLookup w a b = facLookup w a' b' := by
+  unfold facLookup; rw [ha, hb]
+
+/-- the record a lookup returns is a registry entry: over two distinct live assets -/
+theorem lookup_live {w : World} (hr : RegOK w) {a b : Asset} {R : Record} (h : facLookup w a b = some R) :
+    Live w R.a0 ∧ Live w R.a1 ∧ R.a0 ≠ R.a1 :=
+  have hm := mem_of_regLookup h
+  ⟨(hr.live _ hm).1, (hr.live _ hm).2, hr.distinctAssets _ hm⟩
+
+/-- fine form of `lookup_sound`: the record's assets carry the queried raw identifiers (in one of the two orders), and
+each queried asset that is live IS the record's asset in that position -/
+theorem lookup_sound_fine {w : World} (hr : RegOK w) (hraw : RawOK w) {a b : Asset} {R : Record}
+    (h : facLookup w a b = some R) :
+    (w.rawId R.a0 = w.rawId a ∧ w.rawId R.a1 = w.rawId b ∧ (Live w a → R.a0 = a) ∧ (Live w b → R.a1 = b)) ∨
+    (w.rawId R.a0 = w.rawId b ∧ w.rawId R.a1 = w.rawId a ∧ (Live w b → R.a0 = b) ∧ (Live w a → R.a1 = a)) := by
   have hm := mem_of_regLookup h
   have hk := hr.keyed _ hm
+  obtain ⟨l0, l1⟩ := hr.live _ hm
   rcases pairKey_inj (hraw.short _) (hraw.short _) (hraw.short _) (hraw.short _) hk with ⟨h1, h2⟩ | ⟨h1, h2⟩
-  · exact .inl ⟨(hraw.inj _ _ h1).symm, (hraw.inj _ _ h2).symm⟩
-  · exact .inr ⟨(hraw.inj _ _ h2).symm, (hraw.inj _ _ h1).symm⟩
+  · exact .inl ⟨h1.symm, h2.symm, fun la => hraw.inj _ _ l0 la h1.symm, fun lb => hraw.inj _ _ l1 lb h2.symm⟩
+  · exact .inr ⟨h2.symm, h1.symm, fun lb => hraw.inj _ _ l0 lb h2.symm, fun la => hraw.inj _ _ l1 la h1.symm⟩
 
+/-- a lookup only ever returns a record over the queried unordered pair of raw identifiers; when the two queried
+assets are live, a record over exactly the queried asset set -/
+theorem lookup_sound {w : World} (hr : RegOK w) (hraw : RawOK w) {a b : Asset} {R : Record}
+    (h : facLookup w a b = some R) :
+    ((w.rawId R.a0 = w.rawId a ∧ w.rawId R.a1 = w.rawId b) ∨ (w.rawId R.a0 = w.rawId b ∧ w.rawId R.a1 = w.rawId a)) ∧
+    (Live w a → Live w b → (R.a0 = a ∧ R.a1 = b) ∨ (R.a0 = b ∧ R.a1 = a)) := by
+  rcases lookup_sound_fine hr hraw h with ⟨h1, h2, f1, f2⟩ | ⟨h1, h2, f1, f2⟩
+  · exact ⟨.inl ⟨h1, h2⟩, fun la lb => .inl ⟨f1 la, f2 lb⟩⟩
+  · exact ⟨.inr ⟨h1, h2⟩, fun la lb => .inr ⟨f1 lb, f2 la⟩⟩
+
+/-- a lookup with live assets resolves to a pair contract over exactly those two (distinct) assets — the per-hop
+hypothesis of `C13W.RouteOK` -/
+theorem lookup_pair_assets {w : World} (hr : RegOK w) (hraw : RawOK w) {a b : Asset} {R : Record}
+    (h : facLookup w a b = some R) (la : Live w a) (lb : Live w b) :
+    ∃ P, w.pair R.pair = some P ∧ ((P.a0 = a ∧ P.a1 = b) ∨ (P.a0 = b ∧ P.a1 = a)) ∧ a ≠ b := by
+  have hm := mem_of_regLookup h
+  obtain ⟨P, hP, e0, e1, _⟩ := hr.matched _ hm
+  have hd := hr.distinctAssets _ hm
+  refine ⟨P, hP, ?_⟩
+  rw [e0, e1]
+  rcases (lookup_sound hr hraw h).2 la lb with ⟨f0, f1⟩ | ⟨f0, f1⟩
+  · exact ⟨.inl ⟨f0, f1⟩, fun e => hd (by rw [f0, f1]; exact e)⟩
+  · exact ⟨.inr ⟨f0, f1⟩, fun e => hd (by rw [f0, f1]; exact e.symm)⟩
+
+/-- two lookups that return the same record are over the same unordered pair of raw identifiers; when the four
+queried assets are live, over the same unordered asset set -/
 theorem lookup_distinct {w : World} (hr : RegOK w) (hraw : RawOK w) {a b c d : Asset} {R : Record}
-    (h1 : facLookup w a b = some R) (h2 : facLookup w c d = some R) : (a = c ∧ b = d) ∨ (a = d ∧ b = c) := by
-  rcases lookup_sound hr hraw h1 with ⟨e1, e2⟩ | ⟨e1, e2⟩ <;>
-    rcases lookup_sound hr hraw h2 with ⟨e3, e4⟩ | ⟨e3, e4⟩
-  · exact .inl ⟨e1.symm.trans e3, e2.symm.trans e4⟩
-  · exact .inr ⟨e1.symm.trans e3, e2.symm.trans e4⟩
-  · exact .inr ⟨e2.symm.trans e4, e1.symm.trans e3⟩
-  · exact .inl ⟨e2.symm.trans e4, e1.symm.trans e3⟩
+    (h1 : facLookup w a b = some R) (h2 : facLookup w c d = some R) :
+    ((w.rawId a = w.rawId c ∧ w.rawId b = w.rawId d) ∨ (w.rawId a = w.rawId d ∧ w.rawId b = w.rawId c)) ∧
+    (Live w a → Live w b → Live w c → Live w d → (a = c ∧ b = d) ∨ (a = d ∧ b = c)) := by
+  have k1 := hr.keyed _ (mem_of_regLookup h1)
+  have k2 := hr.keyed _ (mem_of_regLookup h2)
+  have hk : pairKey (w.rawId a) (w.rawId b) = pairKey (w.rawId c) (w.rawId d) := k1.trans k2.symm
+  rcases pairKey_inj (hraw.short _) (hraw.short _) (hraw.short _) (hraw.short _) hk with ⟨e1, e2⟩ | ⟨e1, e2⟩
+  · exact ⟨.inl ⟨e1, e2⟩, fun la lb lc ld => .inl ⟨hraw.inj _ _ la lc e1, hraw.inj _ _ lb ld e2⟩⟩
+  · exact ⟨.inr ⟨e1, e2⟩, fun la lb lc ld => .inr ⟨hraw.inj _ _ la ld e1, hraw.inj _ _ lb lc e2⟩⟩
 
 /-! ### pair creation -/
 
@@ -216,9 +298,24 @@ theorem create_dup_fails {w w' : World} {s : Nat} {a0 a1 : Asset} {req : Require
   · simpa using hd0
   · simpa using hd1
 
-theorem regOK_createPair {w w' : World} {s : Nat} {a0 a1 : Asset} {req : Requirements} {comm lpDec : Option Nat} {np nl : Nat}
-    (hr : RegOK w) (_hraw : RawOK w) (hfresh : w.pair np = none)
+/-- creation revokes no liveness: the LP token is instantiated at `nl` (over whatever was there) -/
+theorem live_createPair {w w' : World} {s : Nat} {a0 a1 : Asset} {req : Requirements} {comm lpDec : Option Nat}
+    {np nl : Nat} (h : facCreatePair w s a0 a1 req comm lpDec np nl = .ok w') (a : Asset) :
+    (Live w a → Live w' a) ∧ (Live w' a → Live w a ∨ a = .token nl) := by
+  obtain ⟨_, _, _, d0, d1, _, _, _, rfl⟩ := facCreatePair_inv h
+  cases a with
+  | native d => exact ⟨fun h => h, fun h => .inl h⟩
+  | token t =>
+    simp only [live_token]
+    by_cases ht : t = nl
+    · subst ht; simp
+    · simp [ht]
+
+/-- the registry invariant does not depend on `RawOK` -/
+theorem regOK_createPair' {w w' : World} {s : Nat} {a0 a1 : Asset} {req : Requirements} {comm lpDec : Option Nat} {np nl : Nat}
+    (hr : RegOK w) (hfresh : w.pair np = none)
     (h : facCreatePair w s a0 a1 req comm lpDec np nl = .ok w') : RegOK w' := by
+  have hmono := fun a => (live_createPair h a).1
   obtain ⟨_, hne, _, d0, d1, hd0, hd1, _, rfl⟩ := facCreatePair_inv h
   have hold : ∀ e ∈ w.registry, e.2.pair ≠ np := by
     intro e he hp
@@ -252,6 +349,16 @@ theorem regOK_createPair {w w' : World} {s : Nat} {a0 a1 : Asset} {req : Require
       · simp only at hd; subst hd; exact assetDecimals_native_ok hd0
       · simp only at hd; subst hd; exact assetDecimals_native_ok hd1
     · exact hr.denomsKnown e h d hd
+  · intro e he
+    rcases mem_regInsert _ _ _ e he with h | h
+    · rw [h]
+      exact ⟨hmono _ (live_of_decimals hd0), hmono _ (live_of_decimals hd1)⟩
+    · exact ⟨hmono _ (hr.live e h).1, hmono _ (hr.live e h).2⟩
+
+theorem regOK_createPair {w w' : World} {s : Nat} {a0 a1 : Asset} {req : Requirements} {comm lpDec : Option Nat} {np nl : Nat}
+    (hr : RegOK w) (_hraw : RawOK w) (hfresh : w.pair np = none)
+    (h : facCreatePair w s a0 a1 req comm lpDec np nl = .ok w') : RegOK w' :=
+  regOK_createPair' hr hfresh h
 
 /-! ### the decimals fan-out -/
 
@@ -437,6 +544,49 @@ theorem fanOutMsgs_spec (d k : Nat) : ∀ (l : List (Bytes × Record)) (w w' : W
         · exact absurd hc' hc
         · exact ih2 e' he' hc'
 
+/-! ### the fan-out moves nothing -/
+
+theorem facFanOut1_bt {denom decimals : Nat} {w w' : World} {msgs msgs' : List (Nat × Nat × Nat)}
+    {e : Bytes × Record} (h : facFanOut1 denom decimals (w, msgs) e = .ok (w', msgs')) :
+    w'.bank = w.bank ∧ w'.tok = w.tok := by
+  unfold facFanOut1 at h
+  dsimp only at h
+  split at h
+  · cases h
+  injection h with h
+  by_cases h0 : e.2.a0 = .native denom <;> by_cases h1 : e.2.a1 = .native denom <;>
+    simp only [h0, h1, if_true, if_false, Prod.mk.injEq] at h <;>
+    (obtain ⟨rfl, _⟩ := h; exact ⟨rfl, rfl⟩)
+
+theorem facFanOut_fold_bt {denom decimals : Nat} : ∀ (l : List (Bytes × Record)) {acc acc' : World × List (Nat × Nat × Nat)},
+    l.foldlM (facFanOut1 denom decimals) acc = .ok acc' → acc'.1.bank = acc.1.bank ∧ acc'.1.tok = acc.1.tok
+  | [], acc, acc', h => by
+    simp only [List.foldlM_nil, pure_ok_iff] at h; subst h; exact ⟨rfl, rfl⟩
+  | e :: l, (w, msgs), acc', h => by
+    simp only [List.foldlM_cons, bind_ok_iff] at h
+    obtain ⟨⟨w1, msgs1⟩, h1, h2⟩ := h
+    obtain ⟨a1, b1⟩ := facFanOut1_bt h1
+    obtain ⟨a2, b2⟩ := facFanOut_fold_bt l h2
+    exact ⟨a2.trans a1, b2.trans b1⟩
+
+theorem update_moves_nothing {w w' : World} {s d k : Nat} (h : facAddDecimals w s d k = .ok w') :
+    w'.bank = w.bank ∧ w'.tok = w.tok := by
+  unfold facAddDecimals at h
+  dsimp only at h
+  split at h
+  · cases h
+  split at h
+  · cases h
+  split at h
+  · simp only [bind_ok_iff] at h
+    obtain ⟨⟨w2, msgs⟩, h1, h2⟩ := h
+    obtain ⟨a1, b1⟩ := facFanOut_fold_bt _ h1
+    have po := fanOutMsgs_pairOnly _ h2
+    exact ⟨po.bank.trans a1, po.tok.trans b1⟩
+  · simp only [pure_ok_iff] at h
+    subst h
+    exact ⟨rfl, rfl⟩
+
 /-! ### `facAddDecimals` characterised -/
 
 theorem addDecimals_char {w w' : World} {s d k : Nat} (hr : RegOK w) (h : facAddDecimals w s d k = .ok w') :
@@ -515,8 +665,23 @@ theorem recMatches_after {w w' : World} {d k : Nat} (hr : RegOK w) (hfac : w'.fa
     rw [updRec_of_not hc]
     exact ⟨P, by rw [hsame]; exact hP, a0, a1, d0, d1, lp, cm, rq, by rw [hfac]; exact fc⟩
 
-theorem regOK_addDecimals {w w' : World} {s d k : Nat} (hr : RegOK w) (_hraw : RawOK w)
+/-- re-registration revokes no liveness: the cw20 contracts are untouched, `d` is (or stays) registered -/
+theorem live_addDecimals {w w' : World} {s d k : Nat} (hr : RegOK w) (h : facAddDecimals w s d k = .ok w')
+    (a : Asset) : (Live w a → Live w' a) ∧ (Live w' a → Live w a ∨ a = .native d) := by
+  obtain ⟨_, _, hden, _, _, _⟩ := addDecimals_char hr h
+  have htok := (update_moves_nothing h).2
+  cases a with
+  | token t => simp only [live_token, htok]; exact ⟨fun h => h, fun h => .inl h⟩
+  | native x =>
+    simp only [live_native, hden]
+    by_cases hx : x = d
+    · subst hx; simp
+    · simp [hx]
+
+/-- the registry invariant does not depend on `RawOK` -/
+theorem regOK_addDecimals' {w w' : World} {s d k : Nat} (hr : RegOK w)
     (h : facAddDecimals w s d k = .ok w') : RegOK w' := by
+  have hmono := fun a => (live_addDecimals hr h a).1
   obtain ⟨hfac, hraw', hden, hreg, h1, h2⟩ := addDecimals_char hr h
   constructor
   · rw [hreg]; exact sorted_of_keys_eq (map_fst_updEntry d k _) hr.sorted
@@ -542,6 +707,14 @@ theorem regOK_addDecimals {w w' : World} {s d k : Nat} (hr : RegOK w) (_hraw : R
     by_cases hxd : x = d
     · simp [hxd]
     · simpa [hxd] using this
+  · intro e' he'
+    rw [hreg] at he'
+    obtain ⟨e, he, rfl⟩ := List.mem_map.mp he'
+    exact ⟨hmono _ (hr.live e he).1, hmono _ (hr.live e he).2⟩
+
+theorem regOK_addDecimals {w w' : World} {s d k : Nat} (hr : RegOK w) (_hraw : RawOK w)
+    (h : facAddDecimals w s d k = .ok w') : RegOK w' :=
+  regOK_addDecimals' hr h
 
 theorem update_reaches_all {w w' : World} {s d k : Nat} (hr : RegOK w) (_hraw : RawOK w)
     (h : facAddDecimals w s d k = .ok w') :
@@ -571,49 +744,6 @@ theorem update_others_untouched {w w' : World} {s d k : Nat} (hr : RegOK w) (_hr
   rcases hc with hc | hc
   · exact h0 (a0.trans hc)
   · exact h1 (a1.trans hc)
-
-/-! ### the fan-out moves nothing -/
-
-theorem facFanOut1_bt {denom decimals : Nat} {w w' : World} {msgs msgs' : List (Nat × Nat × Nat)}
-    {e : Bytes × Record} (h : facFanOut1 denom decimals (w, msgs) e = .ok (w', msgs')) :
-    w'.bank = w.bank ∧ w'.tok = w.tok := by
-  unfold facFanOut1 at h
-  dsimp only at h
-  split at h
-  · cases h
-  injection h with h
-  by_cases h0 : e.2.a0 = .native denom <;> by_cases h1 : e.2.a1 = .native denom <;>
-    simp only [h0, h1, if_true, if_false, Prod.mk.injEq] at h <;>
-    (obtain ⟨rfl, _⟩ := h; exact ⟨rfl, rfl⟩)
-
-theorem facFanOut_fold_bt {denom decimals : Nat} : ∀ (l : List (Bytes × Record)) {acc acc' : World × List (Nat × Nat × Nat)},
-    l.foldlM (facFanOut1 denom decimals) acc = .ok acc' → acc'.1.bank = acc.1.bank ∧ acc'.1.tok = acc.1.tok
-  | [], acc, acc', h => by
-    simp only [List.foldlM_nil, pure_ok_iff] at h; subst h; exact ⟨rfl, rfl⟩
-  | e :: l, (w, msgs), acc', h => by
-    simp only [List.foldlM_cons, bind_ok_iff] at h
-    obtain ⟨⟨w1, msgs1⟩, h1, h2⟩ := h
-    obtain ⟨a1, b1⟩ := facFanOut1_bt h1
-    obtain ⟨a2, b2⟩ := facFanOut_fold_bt l h2
-    exact ⟨a2.trans a1, b2.trans b1⟩
-
-theorem update_moves_nothing {w w' : World} {s d k : Nat} (h : facAddDecimals w s d k = .ok w') :
-    w'.bank = w.bank ∧ w'.tok = w.tok := by
-  unfold facAddDecimals at h
-  dsimp only at h
-  split at h
-  · cases h
-  split at h
-  · cases h
-  split at h
-  · simp only [bind_ok_iff] at h
-    obtain ⟨⟨w2, msgs⟩, h1, h2⟩ := h
-    obtain ⟨a1, b1⟩ := facFanOut_fold_bt _ h1
-    have po := fanOutMsgs_pairOnly _ h2
-    exact ⟨po.bank.trans a1, po.tok.trans b1⟩
-  · simp only [pure_ok_iff] at h
-    subst h
-    exact ⟨rfl, rfl⟩
 
 /-! ### every handler outside the factory keeps the contract states (`Same`), except the pair's decimals update -/
 
@@ -784,10 +914,338 @@ theorem tokSend_same {name : Asset → String} {w w' : World} {t sender dst amt 
       exact (tokTransfer_same h1).1.trans (routerReceive_same h2)
     · cases h
 
+/-! ### … and which cw20 contracts exist (`SameToks`): the parallel of the `_same` lemmas above -/
+
+theorem pairSwap_toks {w w' : World} {p : Nat} {P : PairSt} {funds : List (Nat × Nat)} {trader : Nat}
+    {offer : Asset} {amt : Nat} {belief ms tgt : Option Nat} {o : SwapOut}
+    (h : pairSwap w p P funds trader offer amt belief ms tgt = .ok (w', o)) : SameToks w w' := by
+  unfold pairSwap at h
+  simp only [bind_ok_iff] at h
+  obtain ⟨_, _, r0, _, r1, _, a2, _, a3, _, _, _, h⟩ := h
+  split at h <;> simp only [bind_ok_iff, pure_ok_iff, Prod.mk.injEq] at h
+  · obtain ⟨_, rfl, rfl, _⟩ := h; exact SameToks.refl _
+  · obtain ⟨w1, hw, rfl, _⟩ := h; exact payout_sameToks hw
+
+theorem pairWithdraw_toks {w w' : World} {p : Nat} {P : PairSt} {sender amount : Nat} {x : Nat × Nat}
+    (h : pairWithdraw w p P sender amount = .ok (w', x)) : SameToks w w' := by
+  unfold pairWithdraw at h
+  simp only [bind_ok_iff, pure_ok_iff, Prod.mk.injEq] at h
+  obtain ⟨r0, _, r1, _, S, _, ratio, _, x0, _, x1, _, w1, h1, w2, h2, w3, h3, rfl, _⟩ := h
+  exact ((payout_sameToks h1).trans (payout_sameToks h2)).trans (tokBurn_sameToks h3)
+
+theorem pairProvide_toks {w w' : World} {p : Nat} {P : PairSt} {sender : Nat} {funds : List (Nat × Nat)}
+    {as0 as1 : Asset} {am0 am1 : Nat} {tol receiver : Option Nat} {sh : Nat}
+    (h : pairProvide w p P sender funds as0 am0 as1 am1 tol receiver = .ok (w', sh)) : SameToks w w' := by
+  unfold pairProvide at h
+  simp only [bind_ok_iff] at h
+  obtain ⟨_, _, _, _, r0, _, r1, _, d0, _, d1, _, _, _, _, _, _, _, _, _, _, _, _, _, _, _, S, _, share, _, h⟩ := h
+  split at h
+  · cases h
+  simp only [bind_ok_iff, pure_ok_iff, Prod.mk.injEq] at h
+  obtain ⟨share', _, w1, h1, w2, h2, w3, h3, w4, h4, rfl, _⟩ := h
+  have k1 : SameToks w w1 := by
+    split at h1
+    · exact tokTransferFrom_sameToks h1
+    · simp only [pure_ok_iff] at h1; subst h1; exact SameToks.refl _
+  have k2 : SameToks w1 w2 := by
+    split at h2
+    · exact tokTransferFrom_sameToks h2
+    · simp only [pure_ok_iff] at h2; subst h2; exact SameToks.refl _
+  have k3 : SameToks w2 w3 := by
+    split at h3
+    · exact tokMint_sameToks h3
+    · simp only [pure_ok_iff] at h3; subst h3; exact SameToks.refl _
+  exact ((k1.trans k2).trans k3).trans (tokMint_sameToks h4)
+
+theorem pairReceive_toks {w w' : World} {p t from_ amount : Nat} {hk : Hook} {out : Out}
+    (h : pairReceive w p t from_ amount hk = .ok (w', out)) : SameToks w w' := by
+  cases hk with
+  | swap offer amt b ms tgt =>
+    obtain ⟨P, _, _, _, _, w1, o, hs, he⟩ := pairReceive_swap h
+    simp only [Prod.mk.injEq] at he
+    obtain ⟨rfl, _⟩ := he
+    exact pairSwap_toks hs
+  | withdraw =>
+    obtain ⟨P, _, _, w1, x0, x1, hs, he⟩ := pairReceive_withdraw h
+    simp only [Prod.mk.injEq] at he
+    obtain ⟨rfl, _⟩ := he
+    exact pairWithdraw_toks hs
+  | routerOps ops mn tgt => exact absurd h pairReceive_routerOps
+  | garbage => exact absurd h pairReceive_garbage
+
+/-- no pair execute creates or removes a cw20 contract -/
+theorem pairExec_toks {w w' : World} {s p : Nat} {funds : List (Nat × Nat)} {m : PairMsg} {out : Out}
+    (h : pairExec w s p funds m = .ok (w', out)) : SameToks w w' := by
+  cases m with
+  | provide as0 am0 as1 am1 tol rcv =>
+    obtain ⟨P, w0, w1, sh, _, h0, h1, he⟩ := pairExec_provide h
+    simp only [Prod.mk.injEq] at he
+    obtain ⟨rfl, _⟩ := he
+    exact (sameToks_of_tok_eq (attach_same h0).2).trans (pairProvide_toks h1)
+  | swap offer amt b ms tgt =>
+    cases offer with
+    | token t => exact absurd h pairExec_swap_token
+    | native d =>
+      obtain ⟨P, w0, w1, o, _, h0, h1, he⟩ := pairExec_swap_native h
+      simp only [Prod.mk.injEq] at he
+      obtain ⟨rfl, _⟩ := he
+      exact (sameToks_of_tok_eq (attach_same h0).2).trans (pairSwap_toks h1)
+  | receive from_ amount hk =>
+    obtain ⟨P, w0, _, h0, h1⟩ := pairExec_receive h
+    exact (sameToks_of_tok_eq (attach_same h0).2).trans (pairReceive_toks h1)
+  | updateDecimals d da db =>
+    obtain ⟨P, w0, w1, _, h0, h1, he⟩ := pairExec_updateDecimals h
+    simp only [Prod.mk.injEq] at he
+    obtain ⟨rfl, _⟩ := he
+    exact (sameToks_of_tok_eq (attach_same h0).2).trans (sameToks_of_tok_eq (pairUpdateDecimals_pairOnly h1).tok)
+
+theorem tokSendPair_toks {w w' : World} {t sender p amt : Nat} {hk : Hook} {out : Out}
+    (h : tokSendPair w t sender p amt hk = .ok (w', out)) : SameToks w w' := by
+  unfold tokSendPair at h
+  simp only [bind_ok_iff] at h
+  obtain ⟨w1, h1, h2⟩ := h
+  exact (tokTransfer_sameToks h1).trans (pairReceive_toks h2)
+
+theorem routerHop_toks {w w' : World} {sender : Nat} {offer ask : Asset} {tgt : Option Nat}
+    (h : routerHop w sender offer ask tgt = .ok w') : SameToks w w' := by
+  unfold routerHop at h
+  split at h
+  · cases h
+  split at h
+  · cases h
+  simp only [bind_ok_iff] at h
+  obtain ⟨amount, _, h⟩ := h
+  split at h
+  · simp only [bind_ok_iff, pure_ok_iff] at h
+    obtain ⟨⟨w1, o⟩, h1, rfl⟩ := h
+    exact pairExec_toks h1
+  · simp only [bind_ok_iff, pure_ok_iff] at h
+    obtain ⟨⟨w1, o⟩, h1, rfl⟩ := h
+    exact tokSendPair_toks h1
+
+theorem routerHops_toks {tgt : Nat} : ∀ (ops : List (Asset × Asset)) {w w' : World},
+    routerHops w tgt ops = .ok w' → SameToks w w'
+  | [], w, w', h => by
+    simp only [routerHops] at h; injection h with h; subst h; exact SameToks.refl _
+  | [(o, a)], w, w', h => by
+    simp only [routerHops] at h; exact routerHop_toks h
+  | (o, a) :: b :: rest, w, w', h => by
+    simp only [routerHops, bind_ok_iff] at h
+    obtain ⟨w1, h1, h2⟩ := h
+    exact (routerHop_toks h1).trans (routerHops_toks (b :: rest) h2)
+
+theorem routerSwapOps_toks {name : Asset → String} {w w' : World} {sender : Nat} {ops : List (Asset × Asset)}
+    {mn tgt : Option Nat} (h : routerSwapOps name w sender ops mn tgt = .ok w') : SameToks w w' := by
+  unfold routerSwapOps at h
+  split at h
+  · cases h
+  simp only [bind_ok_iff] at h
+  obtain ⟨_, _, h⟩ := h
+  split at h
+  · exact routerHops_toks _ h
+  · simp only [bind_ok_iff, pure_ok_iff] at h
+    obtain ⟨_, _, w1, h1, _, _, rfl⟩ := h
+    exact routerHops_toks _ h1
+
+theorem routerReceive_toks {name : Asset → String} {w w' : World} {from_ : Nat} {hk : Hook}
+    (h : routerReceive name w from_ hk = .ok w') : SameToks w w' := by
+  unfold routerReceive at h
+  split at h
+  · exact routerSwapOps_toks h
+  · cases h
+
+theorem routerExec_toks {name : Asset → String} {w w' : World} {sender : Nat} {funds : List (Nat × Nat)}
+    {m : RouterMsg} (h : routerExec name w sender funds m = .ok w') : SameToks w w' := by
+  unfold routerExec at h
+  simp only [bind_ok_iff] at h
+  obtain ⟨w0, h0, h⟩ := h
+  refine (sameToks_of_tok_eq (attach_same h0).2).trans ?_
+  cases m with
+  | swapOps ops mn tgt => exact routerSwapOps_toks h
+  | swapOp o a tgt => exact routerHop_toks h
+  | assertMin a prev mn rcv =>
+    simp only [bind_ok_iff, pure_ok_iff] at h
+    obtain ⟨_, _, rfl⟩ := h
+    exact SameToks.refl _
+  | receive from_ amount hk => exact routerReceive_toks h
+
+theorem tokSend_toks {name : Asset → String} {w w' : World} {t sender dst amt : Nat} {hk : Hook} {out : Out}
+    (h : tokSend name w t sender dst amt hk = .ok (w', out)) : SameToks w w' := by
+  unfold tokSend at h
+  split at h
+  · exact tokSendPair_toks h
+  · split at h
+    · simp only [bind_ok_iff, pure_ok_iff, Prod.mk.injEq] at h
+      obtain ⟨w1, h1, w2, h2, rfl, _⟩ := h
+      exact (tokTransfer_sameToks h1).trans (routerReceive_toks h2)
+    · cases h
+
+/-! ### liveness is never revoked -/
+
+/-- the asset an operation can make live: the LP token instantiated for a created pair, the denom of an
+`AddNativeTokenDecimals` -/
+def NewLive (op : Op) (a : Asset) : Prop :=
+  (∃ s f a0 a1 req c ld np nl, op = .factory s f (.createPair a0 a1 req c ld np nl) ∧ a = .token nl) ∨
+  (∃ s f d k, op = .factory s f (.addDecimals d k) ∧ a = .native d)
+
+theorem newLive_unique {op : Op} {a b : Asset} (ha : NewLive op a) (hb : NewLive op b) : a = b := by
+  rcases ha with ⟨s, f, a0, a1, req, c, ld, np, nl, e, rfl⟩ | ⟨s, f, d, k, e, rfl⟩ <;>
+    rcases hb with ⟨s', f', a0', a1', req', c', ld', np', nl', e', rfl⟩ | ⟨s', f', d', k', e', rfl⟩ <;>
+    (rw [e] at e'; cases e'; try rfl)
+
+/-- the denoms table after `AddNativeTokenDecimals` (no invariant needed) -/
+theorem facFanOut1_denoms {denom decimals : Nat} {w w' : World} {msgs msgs' : List (Nat × Nat × Nat)}
+    {e : Bytes × Record} (h : facFanOut1 denom decimals (w, msgs) e = .ok (w', msgs')) :
+    w'.denoms = w.denoms := by
+  unfold facFanOut1 at h
+  dsimp only at h
+  split at h
+  · cases h
+  injection h with h
+  by_cases h0 : e.2.a0 = .native denom <;> by_cases h1 : e.2.a1 = .native denom <;>
+    simp only [h0, h1, if_true, if_false, Prod.mk.injEq] at h <;>
+    (obtain ⟨rfl, _⟩ := h; rfl)
+
+theorem facFanOut_fold_denoms {denom decimals : Nat} : ∀ (l : List (Bytes × Record)) {acc acc' : World × List (Nat × Nat × Nat)},
+    l.foldlM (facFanOut1 denom decimals) acc = .ok acc' → acc'.1.denoms = acc.1.denoms
+  | [], acc, acc', h => by
+    simp only [List.foldlM_nil, pure_ok_iff] at h; subst h; rfl
+  | e :: l, (w, msgs), acc', h => by
+    simp only [List.foldlM_cons, bind_ok_iff] at h
+    obtain ⟨⟨w1, msgs1⟩, h1, h2⟩ := h
+    exact (facFanOut_fold_denoms l h2).trans (facFanOut1_denoms h1)
+
+theorem facAddDecimals_denoms {w w' : World} {s d k : Nat} (h : facAddDecimals w s d k = .ok w') :
+    w'.denoms = fun x => if x = d then some k else w.denoms x := by
+  unfold facAddDecimals at h
+  dsimp only at h
+  split at h
+  · cases h
+  split at h
+  · cases h
+  split at h
+  · simp only [bind_ok_iff] at h
+    obtain ⟨⟨w2, msgs⟩, h1, h2⟩ := h
+    have a1 := facFanOut_fold_denoms _ h1
+    have po := fanOutMsgs_pairOnly _ h2
+    exact po.denoms.trans a1
+  · simp only [pure_ok_iff] at h
+    subst h
+    rfl
+
+/-- every successful operation keeps every live asset live, and makes at most one further asset live (`NewLive`):
+denoms are only added or overwritten, cw20 contracts only instantiated -/
+theorem live_exec_iff {name : Asset → String} {w w' : World} {op : Op} {out : Out}
+    (h : exec name w op = .ok (w', out)) (a : Asset) :
+    (Live w a → Live w' a) ∧ (Live w' a → Live w a ∨ NewLive op a) := by
+  have key : ∀ {v : World}, Same w v → SameToks w v → (Live w a → Live v a) ∧ (Live v a → Live w a ∨ NewLive op a) :=
+    fun hs ht => ⟨(live_same hs ht a).mpr, fun h => .inl ((live_same hs ht a).mp h)⟩
+  cases op with
+  | bankSend s d cs =>
+    simp only [exec, bind_ok_iff, pure_ok_iff, Prod.mk.injEq] at h
+    obtain ⟨w1, h1, rfl, _⟩ := h
+    exact key (bankSend_same h1).1 (sameToks_of_tok_eq (bankSend_same h1).2)
+  | tokTransfer t s d a =>
+    simp only [exec, bind_ok_iff, pure_ok_iff, Prod.mk.injEq] at h
+    obtain ⟨w1, h1, rfl, _⟩ := h
+    exact key (tokTransfer_same h1).1 (tokTransfer_sameToks h1)
+  | tokSend t s d a hk => exact key (tokSend_same h) (tokSend_toks h)
+  | tokIncAllow t o s a =>
+    simp only [exec, bind_ok_iff, pure_ok_iff, Prod.mk.injEq] at h
+    obtain ⟨w1, h1, rfl, _⟩ := h
+    exact key (tokIncAllow_same h1).1 (tokIncAllow_sameToks h1)
+  | tokBurn t s a =>
+    simp only [exec, bind_ok_iff, pure_ok_iff, Prod.mk.injEq] at h
+    obtain ⟨w1, h1, rfl, _⟩ := h
+    exact key (tokBurn_same h1).1 (tokBurn_sameToks h1)
+  | pair s p f m =>
+    have h' : pairExec w s p f m = .ok (w', out) := h
+    have ht := pairExec_toks h'
+    have hd : w'.denoms = w.denoms := by
+      rcases pairExec_cases h' with hs | ⟨d, da, db, w0, rfl, hs0, hu⟩
+      · exact hs.denoms
+      · exact (pairUpdateDecimals_pairOnly hu).denoms.trans hs0.denoms
+    exact ⟨(live_congr hd ht a).mpr, fun h => .inl ((live_congr hd ht a).mp h)⟩
+  | router s f m =>
+    simp only [exec, bind_ok_iff, pure_ok_iff, Prod.mk.injEq] at h
+    obtain ⟨w1, h1, rfl, _⟩ := h
+    exact key (routerExec_same h1) (routerExec_toks h1)
+  | factory s f m =>
+    simp only [exec, bind_ok_iff, pure_ok_iff, Prod.mk.injEq] at h
+    obtain ⟨w1, h1, rfl, _⟩ := h
+    unfold facExec at h1
+    simp only [bind_ok_iff] at h1
+    obtain ⟨w0, h0, h1⟩ := h1
+    have hs0 := (attach_same h0).1
+    have l0 := live_same hs0 (sameToks_of_tok_eq (attach_same h0).2) a
+    cases m with
+    | updateConfig o tc pc =>
+      have h2 : facUpdateConfig w0 s o tc pc = .ok w1 := h1
+      unfold facUpdateConfig at h2
+      split at h2
+      · cases h2
+      injection h2 with h2
+      subst h2
+      exact ⟨fun h => l0.mpr h, fun h => .inl (l0.mp h)⟩
+    | createPair a0 a1 req comm lpDec np nl =>
+      obtain ⟨c1, c2⟩ := live_createPair (show facCreatePair w0 s a0 a1 req comm lpDec np nl = .ok w1 from h1) a
+      refine ⟨fun h => c1 (l0.mpr h), fun h => ?_⟩
+      rcases c2 h with h | h
+      · exact .inl (l0.mp h)
+      · exact .inr (.inl ⟨s, f, a0, a1, req, comm, lpDec, np, nl, rfl, h⟩)
+    | addDecimals d k =>
+      have h2 : facAddDecimals w0 s d k = .ok w1 := h1
+      have hden := facAddDecimals_denoms h2
+      have htok := (update_moves_nothing h2).2
+      have c : (Live w0 a → Live w1 a) ∧ (Live w1 a → Live w0 a ∨ a = .native d) := by
+        cases a with
+        | token t => simp only [live_token, htok]; exact ⟨fun h => h, fun h => .inl h⟩
+        | native x =>
+          simp only [live_native, hden]
+          by_cases hx : x = d
+          · subst hx; simp
+          · simp [hx]
+      refine ⟨fun h => c.1 (l0.mpr h), fun h => ?_⟩
+      rcases c.2 h with h | h
+      · exact .inl (l0.mp h)
+      · exact .inr (.inr ⟨s, f, d, k, rfl, h⟩)
+    | migratePair p c =>
+      have h2 : facMigratePair w0 s p c = .ok w1 := h1
+      unfold facMigratePair at h2
+      split at h2
+      · cases h2
+      split at h2
+      · cases h2
+      split at h2
+      · split at h2
+        · injection h2 with h2; subst h2; exact ⟨fun h => l0.mpr h, fun h => .inl (l0.mp h)⟩
+        · cases h2
+      · cases h2
+
+/-- monotonicity of liveness: a registered denom stays registered, a cw20 contract stays a contract -/
+theorem live_exec {name : Asset → String} {w w' : World} {op : Op} {out : Out}
+    (h : exec name w op = .ok (w', out)) {a : Asset} (hl : Live w a) : Live w' a :=
+  (live_exec_iff h a).1 hl
+
+theorem live_step {name : Asset → String} (w : World) (op : Op) {a : Asset} (hl : Live w a) :
+    Live (step name w op) a := by
+  unfold step
+  cases hE : exec name w op with
+  | error e => exact hl
+  | ok r => obtain ⟨w', out⟩ := r; exact live_exec hE hl
+
+theorem live_run {name : Asset → String} : ∀ (ops : List Op) (w : World) {a : Asset}, Live w a →
+    Live (run name w ops) a
+  | [], _, _, hl => hl
+  | op :: rest, w, _, hl => by
+    show Live (run name (step name w op) rest) _
+    exact live_run rest _ (live_step w op hl)
+
 /-! ### every operation preserves the invariant -/
 
-theorem regOK_step {name : Asset → String} {w w' : World} {op : Op} {out : Out}
-    (hr : RegOK w) (hraw : RawOK w)
+/-- the registry invariant is preserved by every operation; it does not depend on `RawOK` -/
+theorem regOK_step' {name : Asset → String} {w w' : World} {op : Op} {out : Out}
+    (hr : RegOK w)
     (hactor : ∀ s p f m, op = .pair s p f m → s ≠ w.facAddr)
     (hfresh : ∀ s f a0 a1 req c ld np nl, op = .factory s f (.createPair a0 a1 req c ld np nl) → w.pair np = none)
     (h : exec name w op = .ok (w', out)) : RegOK w' := by
@@ -795,27 +1253,32 @@ theorem regOK_step {name : Asset → String} {w w' : World} {op : Op} {out : Out
   | bankSend s d cs =>
     simp only [exec, bind_ok_iff, pure_ok_iff, Prod.mk.injEq] at h
     obtain ⟨w1, h1, rfl, _⟩ := h
-    exact regOK_same (bankSend_same h1).1 hr
+    exact regOK_same (bankSend_same h1).1 (sameToks_of_tok_eq (bankSend_same h1).2) hr
   | tokTransfer t s d a =>
     simp only [exec, bind_ok_iff, pure_ok_iff, Prod.mk.injEq] at h
     obtain ⟨w1, h1, rfl, _⟩ := h
-    exact regOK_same (tokTransfer_same h1).1 hr
-  | tokSend t s d a hk => exact regOK_same (tokSend_same h) hr
+    exact regOK_same (tokTransfer_same h1).1 (tokTransfer_sameToks h1) hr
+  | tokSend t s d a hk => exact regOK_same (tokSend_same h) (tokSend_toks h) hr
   | tokIncAllow t o s a =>
     simp only [exec, bind_ok_iff, pure_ok_iff, Prod.mk.injEq] at h
     obtain ⟨w1, h1, rfl, _⟩ := h
-    exact regOK_same (tokIncAllow_same h1).1 hr
+    exact regOK_same (tokIncAllow_same h1).1 (tokIncAllow_sameToks h1) hr
   | tokBurn t s a =>
     simp only [exec, bind_ok_iff, pure_ok_iff, Prod.mk.injEq] at h
     obtain ⟨w1, h1, rfl, _⟩ := h
-    exact regOK_same (tokBurn_same h1).1 hr
+    exact regOK_same (tokBurn_same h1).1 (tokBurn_sameToks h1) hr
   | pair s p f m =>
     have h' : pairExec w s p f m = .ok (w', out) := h
     rcases pairExec_cases h' with hs | ⟨d, da, db, w0, rfl, hs0, hu⟩
-    · exact regOK_same hs hr
-    · have hr0 := regOK_same hs0 hr
+    · exact regOK_same hs (pairExec_toks h') hr
+    · clear hs0 hu w0
+      obtain ⟨_, w0, w1, _, h0, hu, he⟩ := pairExec_updateDecimals h'
+      simp only [Prod.mk.injEq] at he
+      obtain ⟨rfl, _⟩ := he
+      have hs0 := (attach_same h0).1
+      have hr0 := regOK_same hs0 (sameToks_of_tok_eq (attach_same h0).2) hr
       obtain ⟨P, hP, hsP, rfl⟩ := pairUpdateDecimals_inv hu
-      refine regOK_transfer (w := w0) rfl rfl rfl rfl ?_ hr0
+      refine regOK_transfer (w := w0) rfl rfl rfl rfl ?_ (fun _ h => h) hr0
       intro e he
       have hne : ¬ e.2.pair = p := by
         intro hp
@@ -826,7 +1289,7 @@ theorem regOK_step {name : Asset → String} {w w' : World} {op : Op} {out : Out
   | router s f m =>
     simp only [exec, bind_ok_iff, pure_ok_iff, Prod.mk.injEq] at h
     obtain ⟨w1, h1, rfl, _⟩ := h
-    exact regOK_same (routerExec_same h1) hr
+    exact regOK_same (routerExec_same h1) (routerExec_toks h1) hr
   | factory s f m =>
     simp only [exec, bind_ok_iff, pure_ok_iff, Prod.mk.injEq] at h
     obtain ⟨w1, h1, rfl, _⟩ := h
@@ -834,8 +1297,7 @@ theorem regOK_step {name : Asset → String} {w w' : World} {op : Op} {out : Out
     simp only [bind_ok_iff] at h1
     obtain ⟨w0, h0, h1⟩ := h1
     have hs0 := (attach_same h0).1
-    have hr0 := regOK_same hs0 hr
-    have hraw0 := rawOK_of_eq hs0.rawId hraw
+    have hr0 := regOK_same hs0 (sameToks_of_tok_eq (attach_same h0).2) hr
     cases m with
     | updateConfig o tc pc =>
       have h2 : facUpdateConfig w0 s o tc pc = .ok w1 := h1
@@ -844,10 +1306,10 @@ theorem regOK_step {name : Asset → String} {w w' : World} {op : Op} {out : Out
       · cases h2
       injection h2 with h2
       subst h2
-      exact regOK_transfer (w := w0) rfl rfl rfl rfl (fun _ _ => rfl) hr0
+      exact regOK_transfer (w := w0) rfl rfl rfl rfl (fun _ _ => rfl) (fun _ h => h) hr0
     | createPair a0 a1 req comm lpDec np nl =>
-      exact regOK_createPair hr0 hraw0 (by rw [hs0.pair]; exact hfresh _ _ _ _ _ _ _ _ _ rfl) h1
-    | addDecimals d k => exact regOK_addDecimals hr0 hraw0 h1
+      exact regOK_createPair' hr0 (by rw [hs0.pair]; exact hfresh _ _ _ _ _ _ _ _ _ rfl) h1
+    | addDecimals d k => exact regOK_addDecimals' hr0 h1
     | migratePair p c =>
       have h2 : facMigratePair w0 s p c = .ok w1 := h1
       unfold facMigratePair at h2
@@ -860,6 +1322,13 @@ theorem regOK_step {name : Asset → String} {w w' : World} {op : Op} {out : Out
         · injection h2 with h2; subst h2; exact hr0
         · cases h2
       · cases h2
+
+theorem regOK_step {name : Asset → String} {w w' : World} {op : Op} {out : Out}
+    (hr : RegOK w) (_hraw : RawOK w)
+    (hactor : ∀ s p f m, op = .pair s p f m → s ≠ w.facAddr)
+    (hfresh : ∀ s f a0 a1 req c ld np nl, op = .factory s f (.createPair a0 a1 req c ld np nl) → w.pair np = none)
+    (h : exec name w op = .ok (w', out)) : RegOK w' :=
+  regOK_step' hr hactor hfresh h
 
 /-- the LP token a successful creation instantiates: zero supply, minted only by the new pair, with the decimals the
 creator asked for (6 by default) — so a later pair over this token records exactly those (`assetDecimals`) -/
